@@ -36,16 +36,15 @@ class PoEntity(PoEntityMixin, Entity):
 
 
 # Unescape and concat a string list
+reEscape = re.compile(r'\\([\\trn"])')
+escapes = {"\\": "\\", "t": "\t", "r": "\r", "n": "\n", '"': '"'}
+
+
 def eval_stringlist(lines):
+    # unescape in one pass, the backslash of an escaped backslash
+    # must not escape the character following it
     return "".join(
-        (
-            line.replace(r"\\", "\\")
-            .replace(r"\t", "\t")
-            .replace(r"\r", "\r")
-            .replace(r"\n", "\n")
-            .replace(r"\"", '"')
-        )
-        for line in lines
+        reEscape.sub(lambda m: escapes[m.group(1)], line) for line in lines
     )
 
 
